@@ -30,6 +30,13 @@ type Case struct {
 	// positions, elements are recorded run-length encoded, `mutated` is one flag (any), `shown` is not recorded
 	RLE    bool  `json:"rle"`
 	AccMod []int `json:"accmod"`
+	// stateful filter kinds (the verdict depends on earlier calls, not only on the element):
+	//   "" / "pos"  pure: accept the listed positions
+	//   "alt"       the verdicts of each filter function alternate per call: true, false, true, ...
+	//   "firstN"    true for the first FN calls of each filter function
+	//   "seen"      true only on the first call for an element (type, id)
+	FKind string `json:"fkind"`
+	FN    int    `json:"fn"`
 }
 
 type Run struct {
@@ -39,6 +46,7 @@ type Run struct {
 	Elems   []interface{} `json:"elems"`
 	Mutated []bool        `json:"mutated"`
 	Shown   []interface{} `json:"shown"`
+	Calls   []interface{} `json:"calls"` // every filter call in the order made: [type, abstract id, verdict]
 	Err     string        `json:"err"`
 }
 
@@ -137,25 +145,47 @@ func main() {
 			for _, procs := range c.Procs {
 				var mu sync.Mutex
 				shown := []interface{}{}
-				see := func(o osm.Object) { // called from decoder goroutines
+				calls := []interface{}{}
+				ncalls := map[string]int{}
+				seen := map[key]bool{}
+				// the filter function of type t asked about object o (called from decoder goroutines, hence the lock);
+				// what it was shown and what it answered are logged in call order
+				ask := func(t string, id int64, o osm.Object) bool {
+					k := key{t, p.ID.Down(id)}
 					if c.RLE {
-						return
+						return accept[k]
 					}
 					r := p.RecObject(o)
 					mu.Lock()
+					defer mu.Unlock()
+					var v bool
+					switch c.FKind {
+					case "alt":
+						ncalls[t]++
+						v = ncalls[t]%2 == 1
+					case "firstN":
+						ncalls[t]++
+						v = ncalls[t] <= c.FN
+					case "seen":
+						v = !seen[k]
+						seen[k] = true
+					default:
+						v = accept[k]
+					}
 					shown = append(shown, r)
-					mu.Unlock()
+					calls = append(calls, []interface{}{t, k.id, v})
+					return v
 				}
 				configure := func(s *osmpbf.Scanner) {
 					s.SkipNodes, s.SkipWays, s.SkipRelations = c.Skip[0], c.Skip[1], c.Skip[2]
 					if c.Inst[0] {
-						s.FilterNode = func(n *osm.Node) bool { see(n); return accept[key{"node", p.ID.Down(int64(n.ID))}] }
+						s.FilterNode = func(n *osm.Node) bool { return ask("node", int64(n.ID), n) }
 					}
 					if c.Inst[1] {
-						s.FilterWay = func(w *osm.Way) bool { see(w); return accept[key{"way", p.ID.Down(int64(w.ID))}] }
+						s.FilterWay = func(w *osm.Way) bool { return ask("way", int64(w.ID), w) }
 					}
 					if c.Inst[2] {
-						s.FilterRelation = func(r *osm.Relation) bool { see(r); return accept[key{"relation", p.ID.Down(int64(r.ID))}] }
+						s.FilterRelation = func(r *osm.Relation) bool { return ask("relation", int64(r.ID), r) }
 					}
 				}
 				var snaps []osm.Object
@@ -188,7 +218,7 @@ func main() {
 					}
 				}
 				mu.Lock()
-				run.Shown = shown
+				run.Shown, run.Calls = shown, calls
 				mu.Unlock()
 				rec.Runs = append(rec.Runs, run)
 			}
@@ -196,7 +226,7 @@ func main() {
 		return rec
 	}
 	crash := func(i int, line []byte, stderr string) interface{} {
-		return Rec{Case: line, Runs: []Run{{Procs: 0, Profile: -1, Elems: []interface{}{}, Mutated: []bool{}, Shown: []interface{}{}, Err: "crash: " + stderr}}}
+		return Rec{Case: line, Runs: []Run{{Procs: 0, Profile: -1, Elems: []interface{}{}, Mutated: []bool{}, Shown: []interface{}{}, Calls: []interface{}{}, Err: "crash: " + stderr}}}
 	}
 	pbfrec.MapIsolated(vio.ReadLines, 0, one, crash)
 }
